@@ -48,6 +48,8 @@ type gm struct {
 	names []string
 	hist  []Op
 	cls   map[string]bool
+	// refHist[source][target][dataset][pred]: every reference ever written (any version)
+	refHist map[string]map[string]map[string]map[string]bool
 }
 
 func newGM(t *rapid.T, names []string, gen kit.GenCfg) *gm {
@@ -104,6 +106,7 @@ func (g *gm) applyBatch(op Op) {
 		}
 	}
 	g.classifyBatch(op.DS, op.Ents)
+	g.noteRefs(op.DS, op.Ents)
 	g.m.Write(op.DS, op.Ents)
 }
 
@@ -120,11 +123,70 @@ func (g *gm) applyTxn(op Op) {
 	}
 	for _, ds := range kit.SortedKeys(op.Parts) {
 		g.classifyBatch(ds, op.Parts[ds])
+		g.noteRefs(ds, op.Parts[ds])
 		g.m.Write(ds, op.Parts[ds])
 	}
 	if len(op.Parts) > 1 {
 		g.cls["txn-multi-dataset"] = true
 	}
+}
+
+func (g *gm) noteRefs(ds string, es []*kit.Ent) {
+	if g.refHist == nil {
+		g.refHist = map[string]map[string]map[string]map[string]bool{}
+	}
+	for _, e := range es {
+		for p, tv := range e.Refs {
+			for _, tg := range kit.RefTargets(kit.Canon(tv)) {
+				if g.refHist[e.ID] == nil {
+					g.refHist[e.ID] = map[string]map[string]map[string]bool{}
+				}
+				if g.refHist[e.ID][tg] == nil {
+					g.refHist[e.ID][tg] = map[string]map[string]bool{}
+				}
+				if g.refHist[e.ID][tg][ds] == nil {
+					g.refHist[e.ID][tg][ds] = map[string]bool{}
+				}
+				g.refHist[e.ID][tg][ds][p] = true
+			}
+		}
+	}
+}
+
+// shapeF04 is the input shape of known finding F04 (incoming relation scan keeps
+// one deleted flag per referencing entity): for an incoming query on target tgt,
+// some referencing entity has, over its whole history and within the query's
+// scope and predicate filter, referenced tgt with >=2 predicates or from >=2 datasets.
+func (g *gm) shapeF04(tgt, pred string, scope []string) bool {
+	inScope := func(ds string) bool {
+		if len(scope) == 0 {
+			return true
+		}
+		for _, s := range scope {
+			if s == ds {
+				return true
+			}
+		}
+		return false
+	}
+	for _, byTarget := range g.refHist {
+		dss, preds := map[string]bool{}, map[string]bool{}
+		for ds, ps := range byTarget[tgt] {
+			if !inScope(ds) {
+				continue
+			}
+			for p := range ps {
+				if pred == "*" || pred == p {
+					dss[ds] = true
+					preds[p] = true
+				}
+			}
+		}
+		if len(dss) >= 2 || len(preds) >= 2 {
+			return true
+		}
+	}
+	return false
 }
 
 func (g *gm) txnPayload(parts map[string][]*kit.Ent) string {
@@ -467,6 +529,10 @@ func (g *gm) cmpSeq(tag, ds string, limits []int, viaHTTP bool, got, want []*kit
 
 // checkRelated: one relationship query against the model.
 func (g *gm) checkRelated(start, pred string, inv bool, scope []string, limits []int, viaHTTP bool) {
+	if inv && kit.Known("F04") && g.shapeF04(start, pred, scope) {
+		kit.S().Exclude("F04")
+		return
+	}
 	var got map[string]bool
 	var dup string
 	var err error
@@ -536,12 +602,18 @@ func (g *gm) sweepRelations() {
 		for s, set := range outs {
 			for k := range set {
 				p, tgt, _ := strings.Cut(k, "|")
+				if kit.Known("F04") && g.shapeF04(tgt, "*", scope) {
+					continue
+				}
 				if ins[tgt] != nil && !ins[tgt][p+"|"+s] {
 					g.fail("REL-TRANSPOSE scope=%v: (%s -%s-> %s) is an outgoing result but not an incoming result of the target", scope, s, p, tgt)
 				}
 			}
 		}
 		for tgt, set := range ins {
+			if kit.Known("F04") && g.shapeF04(tgt, "*", scope) {
+				continue
+			}
 			for k := range set {
 				p, s, _ := strings.Cut(k, "|")
 				if outs[s] != nil && !outs[s][p+"|"+tgt] {
